@@ -110,6 +110,7 @@ func VerifC14() {
 				mOld++
 			}
 		}
+		lastOld := -1 // old position of the previous kept object of this class
 		for i := 0; i < nNew; i++ {
 			if kind[i] == k {
 				inNew++
@@ -118,6 +119,9 @@ func VerifC14() {
 				if rep[j] == k && rt.SameObject(nb[i], ob[j]) {
 					kept++
 					keptOld[j] = true
+					// duplicates of an unchanged rule keep their relative order (they are evaluated in list order, each with its own counters)
+					rt.AssertExcept(j > lastOld, "kept duplicates of an unchanged rule keep their relative order across the reload", "D9", region)
+					lastOld = j
 					kb := nb[i].(*errorCountCircuitBreaker)
 					rt.Assert(kb.nextRetryTimestampMs == 3000000000000 && kb.curProbeNumber == probesDone[j], "a kept breaker keeps its retry deadline and the probes it has already counted")
 					rt.Assert(kind[i] == k, "an old breaker is only reused for a rule identical to its own")
